@@ -12,13 +12,13 @@ T = {
             "Every LP the real three-round pipeline solves on a pairwise-covering + preset + random option grid over hostile/all countries is audited month by month against a ledger recomputed from the supplies only; evidence reports LPs audited per round type and how often each ledger family was active/binding.",
             "Trusts PuLP's varValue read-back and numpy; tolerances 1e-6 relative to the ledger scale; option space is sampled (pairwise + presets + random), countries complete only in the thorough tier."),
     "C02": ("differential optimum check: independent sparse LP formulation solved with HiGHS vs. the reported first-stage objective",
-            "Each captured LP instance is re-formulated independently (not a line of PuLP) from consts/time_consts and solved by HiGHS; reported objective must match within 5e-6 relative in both directions. Evidence lists per constraint family how often it was tight at the reference optimum.",
+            "Each captured LP instance is re-formulated independently (not a line of PuLP) from consts/time_consts and solved by HiGHS; reported objective must match within 5e-6 relative in both directions. For the feed-maximising round the allocation handed on after the secondary solves must also be worth the optimum. Evidence lists per constraint family how often it was tight at the reference optimum.",
             "Trusts scipy HiGHS as the reference solver and the harness's reading of the property statement as the reference formulation; effects below 5e-6 relative are invisible."),
     "C03": ("trace monitor over the three dependent rounds (p1, p3, threshold, demand and charged series) of real runs",
             "Three-round runs over shut-off schedules x stock regimes x thresholds 0..100 x countries; the monitor checks the humans-first implications and the demand/shut-off ceilings on every month of every round.",
             "Tolerance 0.1 percent-fed units as in the repository's own (disabled) validator; option space sampled."),
     "C04": ("trace monitor comparing interpreter output, optimiser variables and the CSV read back from disk",
-            "Every round of every grid run: headline vs min of per-food sums, per-food series vs independently converted allocations, headline vs optimiser objective, CSV round trip, immediate+new-stored = crops to humans.",
+            "Every round of every grid run: headline vs min of per-food sums, per-food series vs independently converted allocations, headline vs optimiser objective, CSV round trip, the final table under the run's title must be this run's (a stale one is planted first), immediate+new-stored = crops to humans.",
             "Trusts pandas CSV parsing; conversion constant recomputed from POP and KCALS_DAILY only."),
     "C05": ("reference-model monitor: independent per-head yield table applied to the captured herd simulation vs. the optimiser inputs",
             "For every round of every grid run the meat and milk series handed to the optimiser are recomputed from the captured herd objects with an independent yield table; feed charged vs eaten, grass used vs available, zero-feed coupling.",
@@ -30,10 +30,10 @@ T = {
             "Per-call energy accounting, fed/starving consistency and per-month supply bounds and priority order, on generated boundary inputs and on every call made by real herd runs.",
             "Digestion efficiencies 0.6/0.8 and the fed = herd x delivered/required rule taken from the property statement."),
     "C08": ("reference-implementation monitor: closed-form calendar/delay/ramp formulas vs. the series returned by compute_parameters_first_round and by the food_system classes on generated constants",
-            "All countries x supply-affecting options x horizons, plus generated constants for the food_system classes; includes scaling metamorphic relation.",
+            "All countries x supply-affecting options x horizons, multi-country calls through the real dispatcher, the demand caps as the feed-maximising round receives them in real runs, plus generated constants for the food_system classes; includes scaling metamorphic relation.",
             "Reference formulas written from docstrings/README; 1e-9 relative tolerance."),
     "C09": ("reference-model + metamorphic monitor on outdoor crops / greenhouse area series (paired runs, generated constants)",
-            "Production vs grown x (1-greenhouse fraction), greenhouse area ramp, relocation/expansion monotonicity, and absence of quantisation via exact scaling of tiny baselines.",
+            "Production vs grown x (1-greenhouse fraction), greenhouse area ramp, relocation/expansion monotonicity, absence of quantisation via exact scaling of tiny baselines, and the harvest constants inside the models real runs build compared with the series handed over.",
             "Greenhouse fraction read from the Greenhouses object captured in the same run."),
     "C10": ("round-trip / path-independence / anchor monitor over Food.in_units on exhaustively enumerated unit pairs with generated settings",
             "All ordered unit pairs per nutrient (exhaustive), sampled triples, scalar and monthly quantities, random population and requirement settings.",
@@ -54,7 +54,7 @@ T = {
             "Inclusion, exclusion, mixed and empty selections; aggregate recomputed from the per-country log; exactly-once appearance.",
             "Population read from the input table."),
     "C16": ("exhaustive execution of the country x preset grid with the repository's validation on",
-            "Every cell of the grid (164 countries + world) x (shipped YAML simulations, manuscript scenarios; thorough adds single-option variations of two anchors) is executed; failures are reported per cell.",
+            "Every cell of the grid (164 countries + world) x (shipped YAML simulations, manuscript scenarios, single-option variations of every preset for a fixed sample of countries, report-mode runs, the yaml entry point itself on shipped and generated files) is executed; failures are reported per cell.",
             "A run is successful iff it returns without raising and the headline is finite and non-negative; manuscript presets use the documented option key."),
     "C17": ("pipeline re-execution in a scratch copy with byte/cell comparison, table invariant scan, and generated inputs for the averaging helper",
             "All 21 import scripts re-run on the shipped raw data; outputs compared byte for byte and cell by cell; combined-table invariants; hypothesis vectors for the percentage-averaging helper.",
